@@ -350,6 +350,7 @@ func (c *ProcCase) Main() {
 	}
 	traces := proc.Tracer().SubscribeChannel(make(chan tracing.ITrace, c.Buf))
 	reqs := make(chan pendingReq, 4096)
+	unanswered := make(chan pendingReq, 4096) // requests the plan never answers (C07: they get their answers after the cancel)
 	stop := make(chan struct{})
 	var ntraces simlog.Cell
 	var nlistening simlog.Cell
@@ -780,6 +781,10 @@ func (c *ProcCase) Main() {
 			pending = append(pending[:i], pending[i+1:]...)
 			if c.NoAnswer[r.act] {
 				L.Add("noanswer", r.act, "", r.seq)
+				select {
+				case unanswered <- r:
+				default:
+				}
 				continue
 			}
 			if c.AnsDelayMs > 0 {
@@ -1114,6 +1119,29 @@ func (c *ProcCase) Main() {
 	}
 	close(stop)
 	<-time.After(watchdog)
+	// the requests that were left open get their answers now, after the cancellation, three calls each: every one of
+	// them has to return (the first may still be taken, the others find the request closed or its slot occupied)
+	late := 0
+	for more := true; more; {
+		select {
+		case r := <-unanswered:
+			late++
+			r, k := r, late
+			go func() {
+				for ci := 1; ci <= 3; ci++ {
+					L.AddG(900+k, "late-do-call", r.act, "", ci)
+					r.tt.Do(bpmn.DoWithResults(map[string]any{"r_" + r.act: "late"}))
+					L.AddG(900+k, "late-do-ret", r.act, "", ci)
+				}
+			}()
+		default:
+			more = false
+		}
+	}
+	if late > 0 {
+		env.fault("answers-after-the-cancel")
+		<-time.After(watchdog)
+	}
 	select {
 	case <-proc.Tracer().Done():
 		L.Add("tracer-done", "", "", 0)
